@@ -58,8 +58,10 @@ type SimKMS struct {
 	FailAt                           int // RPC index that fails with Unavailable (-1: none)
 	// Paging policy: 0 exact pages; 1 short pages (1..page_size items, token while more remain);
 	// 2 exact pages, but a listing that ends exactly on a page boundary gets one more, empty page;
-	// 3 one-element pages.
-	Paging int
+	// 3 one-element pages; 4 like 1, and additionally some requests are answered with an EMPTY page
+	// that still carries a token (legal: a page may hold zero results while more remain).
+	Paging    int
+	lastEmpty bool
 	// GenDelay is the simulated key-generation latency; GenOutcome the state a version reaches.
 	GenDelay   func() time.Duration
 	GenOutcome func() kmspb.CryptoKeyVersion_CryptoKeyVersionState
@@ -201,8 +203,14 @@ func (s *SimKMS) page(total, pos, pageSize int) (n int, next string) {
 	if n > pageSize {
 		n = pageSize
 	}
+	if s.Paging == 4 && remaining > 0 && !s.lastEmpty && s.R.Chance(35, "empty-page?") {
+		s.lastEmpty = true
+		s.R.Probe("empty-page-with-token")
+		return 0, "pos:" + strconv.Itoa(pos)
+	}
+	s.lastEmpty = false
 	switch s.Paging {
-	case 1:
+	case 1, 4:
 		if n > 1 {
 			n = 1 + s.R.Intn(n, "short-page")
 			s.R.Probe("short-page")
